@@ -3,6 +3,7 @@ package main
 import (
 	"bytes"
 	"fmt"
+	"regexp"
 	"sort"
 	"strings"
 
@@ -15,6 +16,8 @@ import (
 )
 
 var lastOutcome string
+
+var perRound = regexp.MustCompile(`(^|: )round \d+: `)
 
 func errClass(e string) string {
 	// strip the culprit list and keep the first words of the message
@@ -302,8 +305,12 @@ func judgeBlame(w *world, k kase, end *faults.End, honest []party.ID) [][2]strin
 			}
 		}
 		// the direct victim of a message that fails decoding / verification must name its sender
+		// (an aggregate inconsistency detected when a round is finalised - e.g. "computed Δ is inconsistent" in
+		// CMP sign, which has no identification phase - is not the failure of one message and may name nobody;
+		// the handler reports per-message failures as "failed to unmarshal...", "round N: ..." or "malformed message...")
 		direct := k.Slot.To == id || k.Slot.To == ""
-		if direct && end.Accepted && len(pe.Culprits) == 0 && !strings.Contains(pe.Err, "broadcast verification failed") {
+		perMessage := strings.Contains(pe.Err, "failed to unmarshal") || strings.Contains(pe.Err, "malformed message") || perRound.MatchString(pe.Err)
+		if direct && end.Accepted && perMessage && (len(pe.Culprits) != 1 || pe.Culprits[0] != k.Deviator) {
 			out = append(out, [2]string{"cheater-not-named|" + errClass(pe.Err), fmt.Sprintf("party %s rejected the altered message of %s (%q) but names nobody", id, k.Deviator, pe.Err)})
 		}
 	}
